@@ -16,7 +16,7 @@ TraceInit == /\ tid \in 1..Len(Traces) /\ l = 1
 Step(a) == \/ a.op = "Edit" /\ Edit(a.p, a.c, a.how)
            \/ a.op = "Add" /\ Add(a.s, a.how)
            \/ a.op = "Migrate" /\ Migrate(a.s, a.t)
-           \/ a.op = "Resave" /\ Resave(a.s)
+           \/ a.op = "Resave" /\ Resave(a.s, a.t)
 Match == Have /\ Step(Ev.act) /\ store' = ObsStore(Ev) /\ prot' = ObsProt(Ev) /\ l' = l + 1 /\ UNCHANGED tid
 Say(tag, clause) == PrintT(<<tag, "C01", clause, tid, l, {}>>)
 Fail == /\ Have /\ ~ENABLED Match
